@@ -269,7 +269,11 @@ func checkJoin(c JoinCase, seed uint64, tier string, skip map[int]bool, progress
 		}
 		nk := "nonull"
 		if nullKeys {
-			nk = "nullkeys"
+			// "nullkeys" only when the difference is confined to outer rows whose key is null
+			nk = "nullkeys-and-others"
+			if sameStrings(dropNullKeyRows(got), dropNullKeyRows(want)) {
+				nk = "nullkeys"
+			}
 		}
 		resp.Failures = append(resp.Failures, Failure{Kind: "oracle",
 			Sig:    fmt.Sprintf("join-differs:%s:%s:%s:%s", v.Kind, dirs, inserted, nk),
@@ -323,4 +327,16 @@ func joinCoqCase(kind string, left, right []Row, out []zed.Value) (string, bool)
 		obs = append(obs, fmt.Sprintf("(%d%%N, Some %d%%N)", id.Int(), inner))
 	}
 	return fmt.Sprintf("(%d%%N, [%s], [%s], [%s])", kd, strings.Join(l, "; "), strings.Join(r, "; "), strings.Join(obs, "; ")), true
+}
+
+// dropNullKeyRows removes canonical join output rows whose outer key is null.
+func dropNullKeyRows(rows []string) []string {
+	var out []string
+	for _, r := range rows {
+		if strings.Contains(r, " lk=null") || strings.Contains(r, " rk=null") {
+			continue
+		}
+		out = append(out, r)
+	}
+	return out
 }
